@@ -10,8 +10,10 @@ import (
 	"github.com/google/safehtml/template"
 	"pgregory.net/rapid"
 
+	"verif/checks/c20/winsrc"
 	"verif/evid"
 	"verif/gen/strs"
+	winpath "verif/winsim/filepath"
 )
 
 func TestMain(m *testing.M) { evid.Main(m, "C20") }
@@ -87,6 +89,99 @@ func gen(t *rapid.T) Case {
 	return c
 }
 
+// ---------- the same function on a Windows host ----------
+//
+// winsrc is /repo's template/trustedsource.go compiled against the GOOS=windows versions of path/filepath and os
+// (bin/gen-winsrc): there '/' and '\\' both separate path elements, ';' separates list entries and a leading "X:" or
+// "\\\\host\\share" is a volume name.
+
+var winDirs = []string{"", ".", `templates`, `templates\pages`, `templates/pages`, `C:\srv\tmpl`, `C:\`, `C:`, `\\host\share\t`, `\`, `a\..\b`, `..`, `a\`, `static/templates/`, `a;b`}
+var winNames = []string{"C:", "C:x", "c:/x", `C:\x`, "z:..", "//host/share/x", `\\host\share\x`, "//./pipe/x", `\\.\pipe\x`, `\\?\C:\x`, `\??\C:\x`, "../x", `..\x`, "a/b", `a\b`, "/", `\`, ";", "a;b", "x:", "ab:c", "x.tmpl::$DATA", "NUL", "nul.txt", "COM1", "..", ".", "", "...", ".. ", "..a", "a..", "x.tmpl", "a", ":", " ", "\x00", "∕", "／", "＼", "․․", "%2e%2e", "%5c", "*", "?"}
+
+func checkWin(c Case) evid.Outcome {
+	dir, src, fn := string(c.Dir), string(c.Src), string(c.Filename)
+	r, err := winsrc.FromConstantDir(dir, src, fn)
+	o := evid.Outcome{NonTrivial: strings.ContainsAny(fn, "./:\\;") || !isASCII(fn)}
+	if err != nil {
+		o.Labels = append(o.Labels, "rejected")
+		if r != "" {
+			return evid.Viol("windows: error %v but non-zero result %q", err, r)
+		}
+		return o
+	}
+	o.Labels = append(o.Labels, "accepted")
+	if strings.ContainsAny(fn, "/\\;") || fn == ".." {
+		return evid.Viol("windows: filename %q accepted although it contains a path or list separator of the host or is ..; result %q", fn, r)
+	}
+	base := winpath.Join(dir, src)
+	cbase := winpath.Clean(base)
+	if strings.Count(r, ";") != strings.Count(base, ";") {
+		return evid.Viol("windows: result %q has a list separator not present in the constant part %q (filename %q)", r, base, fn)
+	}
+	if driveLetter(r) && !driveLetter(cbase) {
+		return evid.Viol("windows: dir=%q src=%q filename=%q: result %q names a drive that the constant part %q does not", dir, src, fn, r, cbase)
+	}
+	if strings.Contains(fn, ":") {
+		// Go takes ANY character followed by ':' for a drive (`\\:` + `x`), Windows only letters, and "name:stream" is a
+		// stream of a direct child: beyond the drive rule above nothing is claimed about names with a colon
+		o.Labels = append(o.Labels, "colon-no-further-claim")
+		return o
+	}
+	if r == base || r == cbase {
+		o.Labels = append(o.Labels, "is-dir-itself")
+		return o
+	}
+	if winpath.Dir(r) != cbase || winpath.Base(r) != fn || !strings.EqualFold(winpath.VolumeName(r), winpath.VolumeName(cbase)) {
+		return evid.Viol("windows: dir=%q src=%q filename=%q: result %q is neither %q nor a direct child of it named by the filename (Dir=%q Base=%q volume %q vs %q)", dir, src, fn, r, cbase, winpath.Dir(r), winpath.Base(r), winpath.VolumeName(r), winpath.VolumeName(cbase))
+	}
+	o.Labels = append(o.Labels, "direct-child")
+	return o
+}
+
+func driveLetter(p string) bool {
+	return len(p) >= 2 && p[1] == ':' && ('a' <= p[0]|0x20 && p[0]|0x20 <= 'z')
+}
+
+func genWin(t *rapid.T) Case {
+	c := Case{Dir: evid.BStr(rapid.SampledFrom(winDirs).Draw(t, "dir")), Src: evid.BStr(rapid.SampledFrom(winDirs).Draw(t, "src"))}
+	if c.Dir != "" && winpath.VolumeName(string(c.Src)) != "" {
+		// a volume name in the middle of the constant part is not a path a program would spell out (Join then glues
+		// what follows a trailing ':' to it without a separator)
+		c.Src = ""
+	}
+	switch rapid.IntRange(0, 2).Draw(t, "kind") {
+	case 0:
+		c.Filename = evid.BStr(rapid.SampledFrom(winNames).Draw(t, "fn"))
+	case 1:
+		c.Filename = evid.BStr(strs.Mutate(t, rapid.SampledFrom(winNames).Draw(t, "fn"), 2, winNames))
+	default:
+		c.Filename = evid.BStr(strs.Hostile(5, winNames).Draw(t, "fn"))
+	}
+	return c
+}
+
+func TestPropWindows(t *testing.T) {
+	for _, c := range []Case{{"a", "b", "x.tmpl"}, {"", "", "a"}, {`C:\srv`, "", "f"}} {
+		if o := checkWin(c); o.Violation != "" || len(o.Labels) == 0 || o.Labels[0] != "accepted" {
+			t.Fatalf("core %+v: %+v", c, o)
+		}
+	}
+	evid.RunProp(t, "windows", 1, genWin, checkWin)
+}
+
+func FuzzWindows(f *testing.F) {
+	f.Add("templates", "", "../secret.tmpl")
+	f.Add("", "", "C:evil.tmpl")
+	f.Add("", "", "//attacker/share/evil.tmpl")
+	f.Fuzz(func(t *testing.T, d, s, fn string) {
+		c := Case{evid.BStr(d), evid.BStr(s), evid.BStr(fn)}
+		if o := checkWin(c); o.Violation != "" {
+			evid.Record("fuzzwindows", c, o)
+			t.Fatalf("%s replay=%s", o.Violation, evid.SaveFailure("fuzzwindows"))
+		}
+	})
+}
+
 func TestPropCore(t *testing.T) {
 	for _, c := range []Case{{"a", "b", "x.tmpl"}, {"", "", "a"}, {"/abs", "", "f"}} {
 		o := check(c)
@@ -112,5 +207,5 @@ func FuzzDir(f *testing.F) {
 }
 
 func TestReplay(t *testing.T) {
-	evid.Replay(t, evid.R("constdir", check), evid.R("fuzz", check))
+	evid.Replay(t, evid.R("constdir", check), evid.R("fuzz", check), evid.R("windows", checkWin), evid.R("fuzzwindows", checkWin))
 }
